@@ -32,8 +32,9 @@ def run(ctx, pid=PID, families=(("commit", 120, 600), ("retry", 60, 300)), mutan
     dev = os.environ.get("VERIF_DEV_SKIP_DESIGN") == "1"     # development aid for mutation testing only
     if not dev:
       ctx.tlc_expect_ok("Pipeline", "Pipeline_base.cfg", timeout=1500, deadlock=False,
-                      overrides={"MaxId": "4", "Classes": '{"P", "D", "H", "C"}'} if thorough else None,
-                      name="Pipeline/base")
+                      overrides={"MaxId": "4"} if thorough else None, name="Pipeline/base")
+      ctx.tlc_expect_ok("Pipeline", "Pipeline_base.cfg", timeout=1500, deadlock=False,
+                      overrides={"Classes": '{"P", "H", "C"}', "Strs": '{"a"}', "MaxId": "4" if thorough else "3"}, name="Pipeline/hold")
       ctx.tlc_expect_ok("Pipeline", "Pipeline_res.cfg", timeout=1500, deadlock=False,
                       overrides={"HasDQ": "TRUE", "MaxFails": "2", "Classes": '{"P"}', "Strs": '{"a"}',
                                  "MaxId": "4" if thorough else "3"}, name="Pipeline/dq-residual")
